@@ -202,6 +202,7 @@ func ExpectDeadlock(id string)             {}
 func SleepBlocks(on bool)                  {}
 func EagerOffsets(on bool)                 {}
 func HTTPServeCalls() int                  { return 0 }
+func TimedSleep(on bool)                   {}
 func WakeSleepers()                        {}
 
 // WouldBlock natively: run f in a goroutine and wait briefly.
